@@ -881,6 +881,9 @@ func (x *Exec) convert(st *State, fr *Frame, in *ssa.Convert) Val {
 		bo := App(SBytes, "bytes.ofstr", v.T)
 		st.assume(Eq(x.bytesOf(st, r), bo))
 		x.injective1(st, "bytes.ofstr", SStr, SBytes, v.T, bo)
+		// string([]byte(s)) == s
+		x.D.DeclareFun("str.ofbytes", []string{SBytes}, SStr)
+		st.assume(Eq(App(SStr, "str.ofbytes", bo), v.T))
 		st.assume(Not(Eq(App(SRef, "s.base", r.T), TNull)))
 		return r
 	case fs == SInt && ts == SStr:
